@@ -294,7 +294,19 @@ func TestVerifC19(t *testing.T) {
 				ok := (len(got) > 0 && got[len(got)-1] == final) || (len(got) == 0 && final == "{}")
 				mu.Unlock()
 				if ok {
-					break
+					// stable?  (the final content may equal an earlier one which the syncer is just passing through:
+					// [{} {a} {} {b} {}] -- wait one more pull period and look again)
+					mu.Lock()
+					n0 := len(got)
+					mu.Unlock()
+					time.Sleep(c19Pull + 30*time.Millisecond)
+					mu.Lock()
+					stable := len(got) == n0
+					mu.Unlock()
+					if stable || time.Now().After(deadline) {
+						break
+					}
+					continue
 				}
 				if time.Now().After(deadline) {
 					mu.Lock()
@@ -304,7 +316,7 @@ func TestVerifC19(t *testing.T) {
 				}
 				time.Sleep(5 * time.Millisecond)
 			}
-			time.Sleep(c19Pull + 30*time.Millisecond) // one more pull period: nothing spurious may follow
+			// (the stability wait above already covered "one more pull period: nothing spurious may follow")
 			mu.Lock()
 			snaps := append([]string{}, got...)
 			mu.Unlock()
